@@ -192,14 +192,30 @@ def model_result(m):
 
 # ---- hedger level -----------------------------------------------------------------------------
 
-def gen_hedger(g, tier):
+# deterministic corpus (every tier, every seed) of the class "user-defined derivative with two or more underliers, default hedge":
+# (multi, model, number of underliers); everything else of such a scenario is drawn as usual
+MULTI_CORPUS = [("option", "linear", 2), ("spread", "linear", 2), ("option", "prev", 2), ("spread", "prev", 3),
+                ("option", "naked", 3), ("spread", "relu", 2), ("option", "relu", 3), ("spread", "naked", 2)]
+
+
+def gen_hedger(g, tier, force=None):
     N = g.small((1, 2, 3, 5))
     T = g.small((2, 2, 3, 4, 5, 6))
     nh = g.small((1, 1, 2, 2, 3, 4, 6)) if tier == "thorough" else g.small((1, 1, 2, 3))
     model = g.weighted([("linear", 4), ("naked", 1), ("relu", 2), ("prev", 3)])
+    # a USER-DEFINED derivative with two or more underliers (BaseDerivative's registry: register_underlier / attribute assignment):
+    #   "option": a sub-class of the built-in option on the first asset that registers further traded assets (proxy hedges) as underliers
+    #   "spread": a sub-class of BaseDerivative paying max(S_a - S_b - K, 0) at maturity (no OptionMixin: price features of the first asset)
+    # hedged with the DEFAULT hedge (hedge=None: "use derivative.underliers"): the hedging instruments are ALL its underliers, each with
+    # its own prices and its own cost rate
+    multi = None
+    if force is not None:
+        multi, model, nh = force
+    elif g.chance(0.2):
+        multi, nh = g.choice(["option", "spread"]), g.choice([2, 2, 3])
     hedges = []
     for i in range(nh):
-        kind = "primary" if i == 0 else g.weighted([("primary", 2), ("listed", 2), ("self", 1)])
+        kind = "primary" if (i == 0 or multi) else g.weighted([("primary", 2), ("listed", 2), ("self", 1)])
         spot = [[g.dy(F(1, 2), 4, 3) for _ in range(T)] for _ in range(N)]
         # cost rates of the traded instruments: frictionless, ordinary, rebates (negative) and tiny ones
         cost = F(g.choice([0, 0, 1, 2, 4, 8, 16, -1, -4, -16]), 256)
@@ -217,7 +233,7 @@ def gen_hedger(g, tier):
     # ('underlier_spot'; 'spot' of a derivative listed at its underlier's price) and the module returns its input object
     # (Identity / an empty Sequential): "hold as many shares as the price".  One feature -> one hedging instrument.
     view, passthru = None, None
-    if g.chance(0.12):
+    if not multi and g.chance(0.12):
         model = "identity"
         view = g.choice(["underlier_spot", "underlier_spot", "spot"])
         passthru = g.choice(["Identity", "Sequential()"])
@@ -230,11 +246,25 @@ def gen_hedger(g, tier):
             h["cost"] = -abs(h["cost"])
         if all(h["cost"] == 0 for h in hedges):
             hedges[g.randint(0, len(hedges) - 1)]["cost"] = F(-g.choice([1, 4, 16]), 256)
+    # how the hedging instruments reach the hedger: the explicit list, or hedge=None (the derivative's underliers).  The default is
+    # meaningful where the traded instruments ARE the derivative's underliers: a built-in option hedged with its stock alone, and
+    # the user-defined derivatives above (a few of those keep the explicit list as a control)
+    call, reg = "explicit", None
+    if multi:
+        call = g.weighted([("default", 5), ("explicit", 1)]) if force is None else "default"
+        reg = g.choice(["register_underlier", "attribute"])
+        if len({h["cost"] for h in hedges}) == 1 and g.chance(0.7):      # the underliers' own rates: make them differ
+            hedges[g.randint(1, nh - 1)]["cost"] = F(g.choice([2, 8, -4, 32]), 256) + hedges[0]["cost"]
+        if multi == "spread":
+            deriv, strike = "spread", g.choice([F(0), F(1, 2), F(-1, 2), F(1)])
+    elif nh == 1 and g.chance(0.3):
+        call = "default"
     csign = "none" if all(h["cost"] == 0 for h in hedges) else "pos" if all(h["cost"] >= 0 for h in hedges) else \
         "rebate" if all(h["cost"] <= 0 for h in hedges) else "mixedsign"
     return dict(kind="hedger", N=N, T=T, hedges=hedges, model=model, strike=strike, w=w, b=b,
-                deriv=deriv, clause=clause, first=True, view=view, passthru=passthru, order=order,
-                tags=dict(model=model, nh=nh, deriv=deriv, order=order, view=view, cost=csign))
+                deriv=deriv, clause=clause, first=True, view=view, passthru=passthru, order=order, multi=multi, call=call, reg=reg,
+                feat0="underlier_spot" if multi == "spread" else "moneyness",
+                tags=dict(model=model, nh=nh, deriv=deriv, order=order, view=view, cost=csign, multi=multi, call=call))
 
 
 def build_hedger_case(torch, c):
@@ -248,15 +278,55 @@ def build_hedger_case(torch, c):
         return torch.tensor([[float(x) for x in r] for r in rows], dtype=dt)
     stock = BrownianStock(cost=float(c["hedges"][0]["cost"]), dtype=dt)
     stock.register_buffer("spot", tens(c["hedges"][0]["spot"]))
-    if c["deriv"] == "lookback":
-        deriv = LookbackOption(stock, strike=float(c["strike"]), maturity=(T - 1) * stock.dt)
+    multi, others = c.get("multi"), []
+    if multi:
+        from pfhedge.instruments import BaseDerivative
+        for h in c["hedges"][1:]:
+            s = BrownianStock(cost=float(h["cost"]), dtype=dt)
+            s.register_buffer("spot", tens(h["spot"]))
+            others.append(s)
+
+        def more_underliers(d):
+            for i, s in enumerate(others):
+                if c["reg"] == "attribute":
+                    setattr(d, f"asset{i + 1}", s)
+                else:
+                    d.register_underlier(f"asset{i + 1}", s)
+
+        class ProxyHedgedOption(LookbackOption if c["deriv"] == "lookback" else EuropeanOption):
+            """user-defined: the built-in option on the first asset; the further assets its holder trades are underliers too"""
+
+            def __init__(self, *a, **k):
+                super().__init__(*a, **k)
+                more_underliers(self)
+
+        class SpreadOption(BaseDerivative):
+            """user-defined: pays max(S_a - S_b - K, 0) at maturity (a third underlier is traded only)"""
+
+            def __init__(self, first, strike, maturity):
+                super().__init__()
+                if c["reg"] == "attribute":
+                    self.asset0 = first
+                else:
+                    self.register_underlier("asset0", first)
+                more_underliers(self)
+                self.strike, self.maturity = strike, maturity
+
+            def payoff_fn(self):
+                return (self.ul(0).spot[..., -1] - self.ul(1).spot[..., -1] - self.strike).clamp(min=0.0)
+    if multi == "spread":
+        deriv = SpreadOption(stock, float(c["strike"]), (T - 1) * stock.dt)
+    elif c["deriv"] == "lookback":
+        deriv = (ProxyHedgedOption if multi else LookbackOption)(stock, strike=float(c["strike"]), maturity=(T - 1) * stock.dt)
     else:
-        deriv = EuropeanOption(stock, call=(c["deriv"] == "european"), strike=float(c["strike"]),
-                               maturity=(T - 1) * stock.dt)
+        deriv = (ProxyHedgedOption if multi else EuropeanOption)(stock, call=(c["deriv"] == "european"), strike=float(c["strike"]),
+                                                                 maturity=(T - 1) * stock.dt)
+    if multi and [id(x) for x in deriv.underliers()] != [id(stock)] + [id(x) for x in others]:
+        raise InternalError("the user-defined derivative does not list its underliers in registration order")
     if c["clause"]:
         deriv.add_clause("cap", lambda d, p: p.clamp(max=1.0))
-    hedge = [stock]
-    for h in c["hedges"][1:]:
+    hedge = [stock] + others
+    for h in ([] if multi else c["hedges"][1:]):
         if h["kind"] == "primary":
             s = BrownianStock(cost=float(h["cost"]), dtype=dt)
             s.register_buffer("spot", tens(h["spot"]))
@@ -273,11 +343,12 @@ def build_hedger_case(torch, c):
             a, b = float(h["a"]), float(h["b"])
             o.list(lambda d, a=a, b=b: d.ul().spot * a + b, cost=float(h["cost"]))
             hedge.append(o)
-    inputs = ["moneyness", "time_to_maturity"]
+    f0 = c.get("feat0", "moneyness")
+    inputs = [f0, "time_to_maturity"]
     nin = 3
     if c["model"] == "naked":
         model = Naked(nh)
-        inputs = ["moneyness"]
+        inputs = [f0]
     elif c["model"] == "identity":
         inputs = [c["view"]]
         if c["view"] == "spot":
@@ -285,11 +356,11 @@ def build_hedger_case(torch, c):
         model = torch.nn.Identity() if c["passthru"] == "Identity" else torch.nn.Sequential()
     else:
         if c["model"] == "prev":
-            inputs = ["moneyness", "prev_hedge"]
+            inputs = [f0, "prev_hedge"]
             nin = 1 + nh
         else:
             from pfhedge.features.features import Ones
-            inputs = ["moneyness", "zeros", Ones()]
+            inputs = [f0, "zeros", Ones()]
             nin = 3
         lin = torch.nn.Linear(nin, nh, dtype=dt)
         with torch.no_grad():
@@ -325,15 +396,16 @@ def hedger_pl_req(c, shift, first=True):
     Nothing is read back from the implementation."""
     roll = lambda r: list(r[shift:]) + list(r[:shift])
     nh = len(c["hedges"])
+    f0 = [c.get("feat0", "moneyness"), False]
     if c["model"] == "naked":
-        feats, model = [["moneyness", False]], {"kind": "naked", "h": nh}
+        feats, model = [f0], {"kind": "naked", "h": nh}
     elif c["model"] == "identity":
         feats, model = [[c["view"], False]], {"kind": "identity"}
     else:
         if c["model"] == "prev":
-            feats, nin = [["moneyness", False], ["prev_hedge"]], 1 + nh
+            feats, nin = [f0, ["prev_hedge"]], 1 + nh
         else:
-            feats, nin = [["moneyness", False], ["zeros"], ["ones"]], 3
+            feats, nin = [f0, ["zeros"], ["ones"]], 3
         W = [[c["w"][i][j % 3] for j in range(nin)] for i in range(nh)]
         model = {"kind": "linear", "w": enc_rat(W), "b": enc_rat(c["b"]), "relu": c["model"] == "relu"}
     paths = []
@@ -351,6 +423,8 @@ def hedger_pl_req(c, shift, first=True):
                   "listed": enc_rat(und) if c.get("view") == "spot" else [],     # derivative quoted at its underlier's price
                   "dt": rat_str(F(1 / 250)), "strike": rat_str(F(c["strike"])), "oracle": []}
         paths.append({"market": market, "hedges": hedges})
+    # (the user-defined spread option has no payoff kind in the model: only its hedge / prices / portfolio value are compared, and the
+    # payoff travels to the op "pl" as a number; the user-defined options on the first asset are the built-in kinds)
     payoff = {"kind": "lookback" if c["deriv"] == "lookback" else "european", "call": c["deriv"] != "european_put",
               "strike": rat_str(F(c["strike"]))}
     return {"op": "hedger_pl", "features": feats, "model": model, "payoff": payoff,
@@ -379,6 +453,10 @@ def hedger_pl_model(c, which, reply):
     return ("ok", vals), exact
 
 
+class DefaultHedgeShape(Exception):
+    """the hedge of the default call has not one row per underlier (already reported): nothing to put into the identity"""
+
+
 def run_hedger_case(torch, ctx, c, which):
     """two rounds on the SAME hedger / instruments: the injected market, then the same market rolled by one time step and
     re-injected into the same objects (a second simulation followed by a second P&L call)"""
@@ -388,6 +466,7 @@ def run_hedger_case(torch, ctx, c, which):
         raise InternalError("cannot build hedger scenario: " + repr(e))
     watch = [("derivative", deriv)] + [(f"hedge{i}", h) for i, h in enumerate(hedge)]
     dt = torch.float64
+    N, T, nh = c["N"], c["T"], len(hedge)
     out = []
     for rnd, shift in enumerate((0, 1)):
         if rnd == 1:
@@ -398,28 +477,124 @@ def run_hedger_case(torch, ctx, c, which):
                     hedge[i].register_buffer("spot", t_)
                 elif h["kind"] == "listed":
                     hedge[i].ul().register_buffer("spot", t_)
+        # hedge=None ("use derivative.underliers"): nothing but the derivative is handed over
+        args = (deriv,) if c.get("call") == "default" else (deriv, hedge)
         with torch.no_grad():
             fn = hedger.compute_pl if which == "pl" else hedger.compute_portfolio
             if c.get("order", "hedge_first") == "hedge_first":
-                unit = hedger.compute_hedge(deriv, hedge)
+                unit = hedger.compute_hedge(*args)
                 seen = torch.stack([h.spot for h in hedge], dim=1)
                 payoff = deriv.payoff()
-                st, v, mut = call_impl(fn, deriv, hedge, watch=watch)
+                st, v, mut = call_impl(fn, *args, watch=watch)
             else:
                 payoff = deriv.payoff()
-                st, v, mut = call_impl(fn, deriv, hedge, watch=watch)
-                unit = hedger.compute_hedge(deriv, hedge)
+                st, v, mut = call_impl(fn, *args, watch=watch)
+                unit = hedger.compute_hedge(*args)
                 seen = torch.stack([h.spot for h in hedge], dim=1)
         if mut:
             ctx.mutated(f"Hedger.compute_{which}", mut, c)
+        if c.get("call") == "default":
+            # the hedge of the default call: one row per underlier of the derivative, and the hedge of the explicit list of them
+            with torch.no_grad():
+                ste, ue, _ = call_impl(hedger.compute_hedge, deriv, list(deriv.underliers()))
+            if tuple(unit.shape) != (N, nh, T) or ste != "ok" or not torch.equal(unit, ue):
+                ctx.fail("Hedger.compute_hedge(derivative) with the default hedge (hedge=None: the derivative's underliers) is not the hedge over ALL "
+                         "underliers of the derivative: one row per underlier, equal to compute_hedge(derivative, list(derivative.underliers()))",
+                         _small_h(c, which) | {"round": rnd}, key="hedger.compute_hedge:default-hedge" + (":multi-underlier" if nh > 1 else ""),
+                         detail={"shape": list(unit.shape), "expected_shape": [N, nh, T], "explicit": ue.tolist() if ste == "ok" else ue,
+                                 "default": unit.tolist()})
+                if tuple(unit.shape) != (N, nh, T):
+                    raise DefaultHedgeShape(tuple(unit.shape))
+        if c.get("multi") == "spread":
+            # the payoff of the user-defined spread option from the generated rows (clauses are the inherited machinery)
+            zs = [max(p[0][-1] - p[1][-1] - F(c["strike"]), F(0)) for p in oracle_spots(c, shift)]
+            zs = [min(z, F(1)) for z in zs] if c["clause"] else zs
+            if tensor_to_fracs(payoff) != zs:
+                ctx.fail("derivative.payoff() of a user-defined derivative with several underliers is not its payoff_fn on the current prices with the registered clauses applied",
+                         _small_h(c, which) | {"round": rnd}, key="hedger.payoff:user-derivative", detail={"payoff": enc_rat(tensor_to_fracs(payoff)), "expected": enc_rat(zs)})
         cost = [F(float(torch.tensor(h.cost))) for h in hedge]
         sp, un = oracle_spots(c, shift), tensor_to_fracs(unit)
         if tensor_to_fracs(seen) != sp:
             ctx.fail("the price reported by a hedging instrument (listed derivative: its pricer on the underlier's CURRENT buffers) is not the current one",
                      _small_h(c, which) | {"round": rnd}, key="hedger.hedge-spot:stale", detail={"reported": enc_rat(tensor_to_fracs(seen)), "current": enc_rat(sp)})
-        pf = tensor_to_fracs(payoff) if which == "pl" else None
+        pf = (zs if c.get("multi") == "spread" else tensor_to_fracs(payoff)) if which == "pl" else None
         out.append((rnd, st, (tensor_to_fracs(v) if st == "ok" else v), sp, un, cost, pf))
     return out
+
+
+def nondyadic_cost_rates(ctx, torch, g):
+    """float64 prices and positions (dyadic, so every product but the one with the rate is exact) with cost rates that are NOT
+    float32 numbers (0.01, 0.003, 1/3 ...): the P&L must be the wealth identity at the rate the caller passed, evaluated in exact
+    Fractions of the float64 data - tolerance 1e-13 of the sum of the absolute terms (float64 summation), far below the 2e-8
+    relative error a float32 detour of the rate leaves on the cost term.  (That detour was a defect of pl, repaired by
+    "fix: pl builds the cost rates in the dtype of the prices".)"""
+    from pfhedge.nn.functional import pl, terminal_value
+    from pfhedge.instruments import BrownianStock, EuropeanOption
+    from pfhedge.nn import Hedger
+    RATES = [0.01, 0.003, 1e-3, 0.1, 1 / 3, 0.0007, 0.05]
+    corpus = [(1, 1, 3, [0.01]), (2, 2, 4, [0.003, 0.1]), (3, 1, 5, [1 / 3])]
+    n_random = 40 if ctx.tier == "quick" else 400
+    for i in range(len(corpus) + n_random):
+        if i < len(corpus):
+            N, H, T, rates = corpus[i]
+        else:
+            N, H, T = g.small((1, 2, 3)), g.small((1, 2, 3)), g.small((2, 3, 5, 8))
+            rates = [g.choice(RATES)] if g.chance(0.3) else [g.choice(RATES) for _ in range(H)]
+        spot = [[[g.dy(F(1, 2), 4, 4) for _ in range(T)] for _ in range(H)] for _ in range(N)]
+        unit = [[[g.dy(F(-2), 2, 4) for _ in range(T)] for _ in range(H)] for _ in range(N)]
+        payoff = [g.dy(F(0), 2, 4) for _ in range(N)] if g.chance(0.6) else None
+        first = g.chance(0.7)
+        fn_name = g.choice(["pl", "pl", "terminal_value"])
+        t64 = lambda x: torch.tensor([[[float(v) for v in r] for r in p_] for p_ in x], dtype=torch.float64)
+        kw = dict(cost=list(rates), deduct_first_cost=first)
+        if payoff is not None:
+            kw["payoff"] = torch.tensor([float(v) for v in payoff], dtype=torch.float64)
+        case = {"fn": fn_name, "shape": [N, H, T], "cost": list(rates), "first": first, "payoff": payoff is not None,
+                "spot": enc_rat(spot), "unit": enc_rat(unit)}
+        ctx.case(case, True, tag="nondyadic_cost")
+        st, v, _ = call_impl(pl if fn_name == "pl" else terminal_value, t64(spot), t64(unit), **kw)
+        if st != "ok":
+            ctx.fail("pl raised on well-shaped float64 data with a decimal cost rate", case, key="functional.pl:error:non-dyadic-cost-rate", detail=v)
+            continue
+        full = [F(r) for r in (rates if len(rates) == H else rates * H)]
+        for n in range(N):
+            exp = wealth(spot[n], unit[n], full, payoff[n] if payoff is not None else None, first)
+            scale = sum(abs(t_) for t_ in terms_for_guard(spot[n], unit[n], full)) + (abs(payoff[n]) if payoff is not None else 0) + 1
+            if abs(F(float(v[n])) - exp) > F(1, 10 ** 13) * scale:
+                ctx.fail("pl with a decimal cost rate on float64 data differs from the wealth identity at that rate (the rate is applied in another precision)",
+                         case | {"path": n}, key="functional.pl:value:non-dyadic-cost-rate",
+                         detail={"impl": float(v[n]), "expected": float(exp), "rel_of_terms": float(abs(F(float(v[n])) - exp) / scale)})
+                break
+    # the hedger level: BrownianStock(cost=rate) in float64
+    for i in range(6 if ctx.tier == "quick" else 40):
+        rate = RATES[i % len(RATES)]
+        N, T = g.small((1, 2, 3)), g.small((3, 4, 6))
+        rows = [[g.dy(F(1, 2), 4, 4) for _ in range(T)] for _ in range(N)]
+        stock = BrownianStock(cost=rate, dtype=torch.float64)
+        stock.register_buffer("spot", torch.tensor([[float(x) for x in r] for r in rows], dtype=torch.float64))
+        deriv = EuropeanOption(stock, strike=1.0, maturity=(T - 1) * stock.dt)
+        lin = torch.nn.Linear(1, 1, dtype=torch.float64)
+        with torch.no_grad():
+            lin.weight.fill_(0.5)
+            lin.bias.fill_(0.25)
+        hedger = Hedger(lin, ["moneyness"])
+        case = {"hedger": "Linear(moneyness)", "cost": rate, "spot": enc_rat(rows)}
+        ctx.case(case, True, tag="nondyadic_cost")
+        with torch.no_grad():
+            unit = hedger.compute_hedge(deriv)
+            st, v, _ = call_impl(hedger.compute_pl, deriv)
+            payoff_t = deriv.payoff()
+        if st != "ok":
+            ctx.fail("Hedger.compute_pl raised", case, key="hedger.compute_pl:error:non-dyadic-cost-rate", detail=v)
+            continue
+        un = tensor_to_fracs(unit)
+        for n in range(N):
+            exp = wealth([rows[n]], un[n], [F(rate)], F(float(payoff_t[n])), True)
+            scale = sum(abs(t_) for t_ in terms_for_guard([rows[n]], un[n], [F(rate)])) + 1
+            if abs(F(float(v[n])) - exp) > F(1, 10 ** 13) * scale:
+                ctx.fail("Hedger.compute_pl on a float64 market with a decimal cost rate differs from the wealth identity at the instrument's rate",
+                         case | {"path": n}, key="hedger.compute_pl:value:non-dyadic-cost-rate", detail={"impl": float(v[n]), "expected": float(exp)})
+                break
 
 
 def check(ctx):
@@ -504,8 +679,9 @@ def check(ctx):
     # ---------------- hedger level
     reqs, metas = [], []
     hreqs, hmetas = [], []     # whole-scenario requests for the composed model ("hedger_pl"), one per (scenario, round)
-    for _ in range(nhed):
-        c = gen_hedger(g, ctx.tier)
+    for it in range(nhed):
+        c = gen_hedger(g, ctx.tier, force=MULTI_CORPUS[it] if it < len(MULTI_CORPUS) else None)
+        dflt = ":default-hedge" + (":multi-underlier" if c["multi"] else "") if c["call"] == "default" else ""
         hidx = {}
         for rnd, shift in enumerate((0, 1)):
             hidx[rnd] = len(hreqs)
@@ -515,10 +691,12 @@ def check(ctx):
                 rounds = run_hedger_case(torch, ctx, c, which)
             except InternalError:
                 raise
+            except DefaultHedgeShape:
+                continue
             except Exception as e:  # noqa
                 ctx.stats["hedger_build_error:" + canon_error(e)] += 1
-                ctx.fail(f"Hedger.compute_{which} raised on a well-formed market", _small_h(c, which),
-                         key=f"hedger.compute_{which}:raise", detail=repr(e)[:300])
+                ctx.fail(f"Hedger.compute_{which} raised on a well-formed market" + (" (hedge=None: the hedging instruments are the derivative's underliers)" if dflt else ""),
+                         _small_h(c, which), key=f"hedger.compute_{which}:raise" + dflt, detail=repr(e)[:300])
                 continue
             for rnd, st, v, sp, un, cost, pf in rounds:
               hmetas.append((c, which, rnd, st, v, hidx[rnd], un, pf))
@@ -554,10 +732,25 @@ def check(ctx):
                                _small_h(c, which), key=f"hedger.compute_{which}:value:passthrough-view-input",
                                detail={"impl": enc_rat(v), "wealth": enc_rat(exp), "cost": enc_rat(cost), "round": rnd,
                                        "hedge": enc_rat(un), "prices": enc_rat(sp)})
+                  elif v != exp and dflt:
+                      ctx.fail(f"Hedger.compute_{which}(derivative) with the default hedge (hedge=None) differs from the wealth identity on the prices of ALL "
+                               "underliers of the derivative, the hedge it computes, the underliers' own cost rates and the payoff",
+                               _small_h(c, which), key=f"hedger.compute_{which}:value" + dflt,
+                               detail={"impl": enc_rat(v), "wealth": enc_rat(exp), "cost": enc_rat(cost), "round": rnd,
+                                       "hedge": enc_rat(un), "prices": enc_rat(sp)})
                   elif v != exp:
                       ctx.fail(f"Hedger.compute_{which} differs from the wealth identity on the hedge spots, its own hedge, the instruments' costs and the payoff",
                                _small_h(c, which), key=f"hedger.compute_{which}:value",
                                detail={"impl": enc_rat(v), "wealth": enc_rat(exp), "cost": enc_rat(cost)})
+              elif dflt:
+                  # every hedging instrument is an underlier of the derivative with a price series of the same shape and the module
+                  # returns one position per underlier: the identity is defined, the P&L must exist
+                  ctx.fail(f"Hedger.compute_{which}(derivative) with the default hedge (hedge=None: ALL underliers of the derivative) raises although the module returns "
+                           "one position per underlier", _small_h(c, which), key=f"hedger.compute_{which}:error" + dflt,
+                           detail={"error": v, "round": rnd, "hedge_shape": [len(un), len(un[0]), len(un[0][0])], "underliers": H})
+              else:
+                  ctx.fail(f"Hedger.compute_{which} raises on a well-formed market (one position per hedging instrument)", _small_h(c, which),
+                           key=f"hedger.compute_{which}:error", detail={"error": v, "round": rnd})
     try:
         outs = [model_result(m) for m in ctx.driver(reqs)]
     except DriverBroken as e:
@@ -576,6 +769,9 @@ def check(ctx):
         hreplies = None
     if hreplies is not None:
         for c, which, rnd, st, v, hi, un, pf in hmetas:
+            if c["multi"] == "spread" and which == "pl":
+                ctx.stats["hedger_pl_skipped_user_payoff"] += 1
+                continue
             rm, exact = hedger_pl_model(c, which, hreplies[hi])
             ctx.stats["hedger_pl_compared"] += 1
             if rm[0] == "ok" and not exact:
@@ -596,13 +792,16 @@ def check(ctx):
                 ctx.disagree("hedger_pl", _small_h(c, which) | {"round": rnd, "composed_model": True},
                              (st, enc_rat(v) if st == "ok" else v), (rm[0], enc_rat(rm[1]) if rm[0] == "ok" else rm[1]),
                              note=("composed model hedgerPL/hedgerPortfolio from the generated data alone; " + note)[:700])
+    nondyadic_cost_rates(ctx, torch, g)
     return ctx.finish(
         rule="functional: random (N,H,T) shapes with dyadic spot/unit/payoff/cost grids sized so float64/float32 commit no rounding; "
              "non-trivial = well-shaped, some cost rate != 0, non-constant prices, positions of both signs, T>=2. "
              "cost vectors: None / zero / positive / one broadcast rate / rebates (no positive rate, some negative) / mixed signs / one negative broadcast rate / tiny (2^-24..2^-12, float64). "
              "integer-dtype (int64/int32) whole-share positions against floating-point prices included. "
              "hedger: real Hedger (linear/ReLU/prev_hedge/Naked models with dyadic weights, and pass-through modules on a single price-buffer feature) "
-             "on injected dyadic buffers with primary and listed hedges (cost rates zero / positive / negative / tiny, incl. books whose only frictions are rebates), hedge-then-P&L and P&L-first call orders; "
+             "on injected dyadic buffers; user-defined derivatives with 2-3 underliers (an option on the first asset registering proxy assets; a spread option on "
+             "BaseDerivative) and built-in options on one stock hedged with the DEFAULT hedge (hedge=None = all underliers, each with its own cost rate; deterministic corpus of 8 + random), "
+             "compute_hedge(default) == compute_hedge(list(underliers)); with primary and listed hedges (cost rates zero / positive / negative / tiny, incl. books whose only frictions are rebates), hedge-then-P&L and P&L-first call orders; "
              "every hedger scenario and round is also run through the composed model `hedgerPL`/`hedgerPortfolio` (op hedger_pl) from the generated data alone; "
              "non-trivial = hedge moves, some cost rate != 0, exactly representable. distinct = sha1 of the canonical case.")
 
@@ -614,6 +813,10 @@ def _small_h(c, which):
     if c["model"] == "identity":
         d["inputs"] = [c["view"]]
         d["module"] = c["passthru"]
+    if c.get("multi"):
+        d["derivative"] = {"user_defined": c["multi"], "underliers": len(c["hedges"]), "registered_by": c["reg"]}
+    if c.get("call") == "default":
+        d["hedge_argument"] = None
     d["hedges"] = [dict(kind=h["kind"], cost=rat_str(h["cost"]), a=rat_str(h["a"]), b=rat_str(h["b"]),
                         spot=enc_rat(h["spot"])) for h in c["hedges"]]
     d["w"] = enc_rat(c["w"])
